@@ -1,7 +1,12 @@
 // the igris/container/ twin (static_vector.h, static_string.h)
-#include "C14/machine.h"
+#include "C14/prelude.h"
 #include <igris/container/static_vector.h>
 #include <igris/container/static_string.h>
+// The library (and the standard headers of prelude.h) are compiled with the flags of the command line (-O1,
+// ASan + UBSan); the harness's own code below - the templated machines, by far the largest part of every
+// translation unit - is compiled without optimisation: a quarter of the compile time, same instrumentation.
+#pragma GCC optimize("O0")
+#include "C14/machine.h"
 namespace
 {
     struct TwinC
